@@ -1,32 +1,60 @@
-(* C04: property theorems.  Statements only; every proof is `exact` of a lemma in Proofs/. *)
+(* C04 -- No checkpoint outlives its use: storage is clean when a schedule concludes
+   Property theorems only: each proof is one application of a lemma proved in Proofs/, followed by Print Assumptions.
+   run_case is the extracted client of Model/Sched.v: it constructs the schedule, performs the listed operations, feeds every
+   emitted action to the reference executor of Model/Exec.v with the declared budgets, and compares n / r / max_n with the
+   execution after every action; `no_err err_Cxx m` = the monitor reported no error of this property's class;
+   `no_raise ls` = no request ended in an exception. *)
 From Coq Require Import ZArith List Bool.
-From CS Require Inst MixInv RevGen TLInv.
+From CS Require MixInv RevGen.
+From CS Require Import Actions NAdvance Multistage Exec Sched RunFacts Projections BasicInv MultistageRun TLBridge.
 Import ListNotations.
 Open Scope Z_scope.
 
-(* Multistage: each resumption yields an action the class executor accepts (start position, no overwrite, covering checkpoint, WORK empty at loads, adjoint data present, store mirrors the stack) and re-establishes the invariant (n, r agree with the execution; stack within the unit count) *)
-Module M_C04_multistage_step.
-Import Inst.
-Theorem C04_multistage_step :
-  forall (tr : NAdvance.traj) (N S : Z) (label : nat -> Actions.storage) (s : MSPot.st) (x : MSPot.xst),
-         1 <= N ->
-         (forall d : nat, label d = Actions.RAM \/ label d = Actions.DISK) ->
-         MSPot.Inv (TC tr) N S label s x ->
-         let (s', o) := MSPot.resume (advC tr) N S label s in
-         match o with
-         | MSPot.Act a =>
-             exists x' : MSPot.xst, MSPot.exec N x a = Some x' /\ MSPot.Inv (TC tr) N S label s' x'
-         | MSPot.Stop => MSPot.pcv s = MSPot.PDone
-         | MSPot.Raise => False
-         end.
-Proof. exact (@Inst.C05_multistage_step). Qed.
-Print Assumptions C04_multistage_step.
-End M_C04_multistage_step.
+(* NoneCheckpointSchedule: Forward, finalize(N), EndForward, then StopIteration for ever *)
+Theorem C04_none : forall (N : Z) (k : nat), 1 <= N -> N <= maxsize ->
+  exists o0 m ls, run_case PNone (BasicInv.pn N) ([Next; Fin N] ++ repeat Next k) = Ok (o0, m, ls) /\ no_err err_C04 m /\ no_raise ls.
+Proof. intros N k H1 H2. destruct (none_run N H1 H2 k) as (o0 & m & ls & E & Hm & Hl). exists o0, m, ls. auto using mon_ok_no_err. Qed.
+Print Assumptions C04_none.
 
-(* Mixed: same *)
-Module M_C04_mixed_step.
+(* SingleMemoryStorageSchedule: any number of adjoint calculations *)
+Theorem C04_single_memory : forall (N : Z) (k : nat), 1 <= N -> N <= maxsize ->
+  exists o0 m ls, run_case PMem (BasicInv.pm N) ([Next; Fin N] ++ repeat Next k) = Ok (o0, m, ls) /\ no_err err_C04 m /\ no_raise ls.
+Proof. intros N k H1 H2. destruct (single_memory_run N H1 H2 k) as (o0 & m & ls & E & Hm & Hl). exists o0, m, ls. auto using mon_ok_no_err. Qed.
+Print Assumptions C04_single_memory.
+
+(* SingleDiskStorageSchedule, move_data = False (any number of adjoint calculations) and True (one) *)
+Theorem C04_single_disk : forall (mv : bool) (N : Z) (k : nat), 1 <= N ->
+  exists o0 m ls, run_case (PDisk mv) (BasicInv.pd N) (repeat Next (Z.to_nat N) ++ [Fin N] ++ repeat Next k) = Ok (o0, m, ls)
+                  /\ no_err err_C04 m /\ no_raise ls.
+Proof. intros mv N k H1. destruct (single_disk_run mv N H1 k) as (o0 & m & ls & E & Hm & Hl). exists o0, m, ls. auto using mon_ok_no_err. Qed.
+Print Assumptions C04_single_disk.
+
+(* MultistageCheckpointSchedule: every N, every RAM/DISK split, both trajectories; budgets = the declared unit counts *)
+Theorem C04_multistage : forall (N ram disk : Z) (tj : traj) (c : Multistage.cfg) (k : nat),
+  1 <= N -> 0 <= ram -> 0 <= disk -> (2 <= N -> 1 <= ram + disk) -> Multistage.construct N ram disk tj = Ok c ->
+  exists o0 m ls, run_case (PMulti N ram disk tj) (ms_params N ram disk) (repeat Next k) = Ok (o0, m, ls) /\ no_err err_C04 m /\ no_raise ls.
+Proof.
+  intros N ram disk tj c k H1 H2 H3 H4 H5. destruct (multistage_run N ram disk tj c k H1 H2 H3 H4 H5) as (o0 & m & ls & E & Hm & Hl & _).
+  exists o0, m, ls. auto using mon_ok_no_err.
+Qed.
+Print Assumptions C04_multistage.
+
+(* TwoLevelCheckpointSchedule: every N (also not a multiple of the period), period, binomial_snapshots, both binomial storages,
+   both trajectories, any number of adjoint calculations; Q = ceil(N / period) forward requests, then finalize(N) *)
+Theorem C04_twolevel : forall (N P bs : Z) (bst : storage) (tj : traj) (k : nat),
+  1 <= N -> 1 <= P -> 0 <= bs -> bst = RAM \/ bst = DISK ->
+  exists o0 m ls, run_case (PTwo P bs bst tj) (ptl N P bs bst) (repeat Next (Z.to_nat (TLBridge.Q N P)) ++ [Fin N] ++ repeat Next (S k)) = Ok (o0, m, ls)
+                  /\ no_err err_C04 m /\ no_raise ls.
+Proof.
+  intros N P bs bst tj k H1 H2 H3 H4. destruct (twolevel_run N P bs bst tj H1 H2 H3 H4 k) as (o0 & m & ls & E & Hm & Hl).
+  exists o0, m, ls. auto using mon_ok_no_err.
+Qed.
+Print Assumptions C04_twolevel.
+
+(* PARTIAL (Mixed): the invariant theorem for the Mixed generator over an abstract planner satisfying the five facts proved in MixDP.v, against a single-storage executor; the bridge to the extracted Mixed model / Exec.v is not proved yet (DESIGN.md 6) *)
+Module M_C04_mixed_machine_partial.
 Import MixInv.
-Theorem C04_mixed_step :
+Theorem C04_mixed_machine_partial :
   forall (plan : Z -> Z -> kind * Z) (C : Z -> Z -> Z),
          (forall k : Z, plan 1 k = (KFR, 1)) ->
          (forall m k : Z,
@@ -46,34 +74,13 @@ Theorem C04_mixed_step :
          forall (s : st) (x : xst) (f : nat),
          Inv plan C N S_ s x -> Good plan C N S_ stg x (resume plan N S_ stg (S (S (S f))) s) (pcv s = PDone).
 Proof. exact (@MixInv.step_ok). Qed.
-Print Assumptions C04_mixed_step.
-End M_C04_mixed_step.
+Print Assumptions C04_mixed_machine_partial.
+End M_C04_mixed_machine_partial.
 
-(* TwoLevel after finalisation: same, across blocks and passes *)
-Module M_C04_twolevel_step.
-Import TLInv.
-Theorem C04_twolevel_step :
-  forall adv : Z -> Z -> Z,
-         (forall m k : Z, 2 <= m -> 1 <= k -> 1 <= adv m k <= m - 1) ->
-         (forall m : Z, 2 <= m -> adv m 1 = m - 1) ->
-         forall T : Z -> Z -> Z,
-         (forall k : Z, T 1 k = 1) ->
-         (forall m k : Z, 2 <= m -> 1 <= k -> T m k = adv m k + T (m - adv m k) (k - 1) + T (adv m k) k) ->
-         forall (N P bs : Z) (bst : Actions.storage),
-         1 <= N ->
-         1 <= P ->
-         0 <= bs ->
-         bst = Actions.RAM \/ bst = Actions.DISK ->
-         forall (d0 : Z) (s : st) (x : xst) (f : nat),
-         Inv T N P bs d0 s x -> Good T N P bs bst x (resume adv N P bs bst (S (S (S (S f)))) s).
-Proof. exact (@TLInv.step_ok). Qed.
-Print Assumptions C04_twolevel_step.
-End M_C04_twolevel_step.
-
-(* Revolve: the whole converted stream is accepted with RAM budget cm; ends with r = N, empty snapshot set, empty store *)
-Module M_C04_revolve_stream.
+(* PARTIAL (Revolve): the whole converted stream of the structural converter is accepted by an executor with RAM budget cm; the bridge from the index-based converter of Model/RevConv.v is not proved yet; DiskRevolve, PeriodicDiskRevolve and HRevolve: validated model + oracle only (DESIGN.md 6) *)
+Module M_C04_revolve_structural_partial.
 Import RevGen.
-Theorem C04_revolve_stream :
+Theorem C04_revolve_structural_partial :
   forall (N cm : Z) (fuel : nat) (opt0 : list (list Z)) (uf : Z) (ops : list RevBlk.op)
            (prev : option RevBlk.op),
          1 <= N ->
@@ -88,6 +95,6 @@ Theorem C04_revolve_stream :
            RevBlk.store x' = [] /\
            RevBlk.rr x' = N /\ RevBlk.endfwd x' = true /\ RevBlk.wdeps x' = None /\ RevBlk.wics x' = None.
 Proof. exact (@RevGen.revolve_stream_ok). Qed.
-Print Assumptions C04_revolve_stream.
-End M_C04_revolve_stream.
+Print Assumptions C04_revolve_structural_partial.
+End M_C04_revolve_structural_partial.
 
